@@ -118,7 +118,9 @@ func (cred *etcdCredentials) Password() string {
 }
 
 func parseCredentials(creds string) (string, string, error) {
-	parts := strings.Split(creds, ":")
+	// Only the first colon separates the user name from the password, the
+	// password itself may contain colons (RFC 7617).
+	parts := strings.SplitN(creds, ":", 2)
 	if len(parts) < 2 {
 		return "", "", fmt.Errorf("bad format")
 	}
